@@ -25,17 +25,22 @@ pub fn source(f: &[&str]) -> String {
   let mode = if f.len() > 6 { f[6] } else { "var" };
   let op = if incl { "..=" } else { ".." };
   let annot = if kind == "f64" { "".to_string() } else { format!("<{}>", kind) };
-  let tilde = if mode == "mut" { "~" } else { "" };
+  // operand forms, one letter each for start, step, end: `l` written in place, `v` a variable, `m` a mutable variable
+  let forms: Vec<char> = match mode {
+    "var" => vec!['v'; 3], "mut" => vec!['m'; 3], "lit" => if kind == "f64" { vec!['l'; 3] } else { vec!['v'; 3] },
+    m => m.chars().collect(),
+  };
+  // literal operands carry their kind; negative f64 literals are parenthesised
+  let p = |t: &str| { let l = lit(kind, t); if kind != "f64" { format!("{}{}", l, annot) } else if l.starts_with('-') { format!("({})", l) } else { l } };
   let mut s = String::new();
-  s.push_str(&format!("{}a{} := {}\n", tilde, annot, lit(kind, f[3])));
-  if has_step { s.push_str(&format!("{}s{} := {}\n", tilde, annot, lit(kind, f[4]))); }
-  s.push_str(&format!("{}b{} := {}\n", tilde, annot, lit(kind, f[5])));
-  if mode == "lit" && kind == "f64" {
-    // literal operands (f64 only: other kinds need annotations); negative literals are parenthesised
-    let p = |t: &str| { let l = lit(kind, t); if l.starts_with('-') { format!("({})", l) } else { l } };
-    if has_step { s.push_str(&format!("{}{}{}{}{}", p(f[3]), "..", p(f[4]), op, p(f[5]))); }
-    else { s.push_str(&format!("{}{}{}", p(f[3]), op, p(f[5]))); }
-  } else if has_step { s.push_str(&format!("a..s{}b", op)); } else { s.push_str(&format!("a{}b", op)); }
+  // as before, the three names are defined whichever forms are used
+  let def = |name: &str, t: &str, form: char| format!("{}{}{} := {}\n", if form == 'm' { "~" } else { "" }, name, annot, lit(kind, t));
+  s.push_str(&def("a", f[3], forms[0]));
+  if has_step { s.push_str(&def("s", f[4], forms[1])); }
+  s.push_str(&def("b", f[5], forms[2]));
+  let opnd = |name: &str, t: &str, form: char| if form == 'l' { p(t) } else { name.to_string() };
+  if has_step { s.push_str(&format!("{}..{}{}{}", opnd("a", f[3], forms[0]), opnd("s", f[4], forms[1]), op, opnd("b", f[5], forms[2]))); }
+  else { s.push_str(&format!("{}{}{}", opnd("a", f[3], forms[0]), op, opnd("b", f[5], forms[2]))); }
   s
 }
 
@@ -71,9 +76,13 @@ pub fn generate(seed: u64, thorough: bool, sink: &mut Sink) -> Vec<String> {
         4 if *lo < 0 => (-(rng.range(1, 4))).to_string(), _ => rng.range(1, 9).to_string() };
       // keep results small: a full-span range is only generated for 8-bit kinds
       if span > 300 && !(kind.ends_with('8') && !kind.ends_with("128")) { continue; }
-      let mode = *rng.pick(&["var", "var", "mut"]);
+      // `-32768<i16>` is the negation of a literal that does not fit the kind (a matter of literals, C13), so the
+      // least value of a signed kind is never written in place
+      let mixed: String = [a.to_string(), step.clone(), b.to_string()].iter().map(|t| { let c = *rng.pick(&['l', 'v', 'v', 'm']); if c == 'l' && *lo < 0 && *t == lo.to_string() { 'v' } else { c } }).collect();
+      let mode = if rng.chance(1, 2) { mixed.as_str() } else { *rng.pick(&["var", "var", "mut"]) };
       cases.push(format!("range\t{}\t{}\t{}\t{}\t{}\t{}", kind, form, a, step, b, mode));
       sink.hit(&format!("{}:{}:{}", kind, form, if step == "-" { "nostep" } else if step == "0" { "zerostep" } else if step.starts_with('-') { "negstep" } else { "step" }));
+      sink.hit(&format!("operands:{}", mode));
       if n < 3 { sink.sample(cases[cases.len() - 1].clone()); }
     }
   }
@@ -85,7 +94,8 @@ pub fn generate(seed: u64, thorough: bool, sink: &mut Sink) -> Vec<String> {
       let form = if rng.chance(1, 2) { "incl" } else { "excl" };
       let step = match rng.below(8) { 0 | 1 | 2 => "-".to_string(), 3 => fbits(kind, 0.0), 4 => fbits(kind, -(rng.range(1, 8) as f64) / 4.0),
         _ => fbits(kind, (rng.range(1, 24) as f64) / 8.0) };
-      let mode = if kind == "f64" { *rng.pick(&["var", "mut", "lit"]) } else { *rng.pick(&["var", "mut"]) };
+      let mixed: String = (0..3).map(|_| *rng.pick(&['l', 'v', 'v', 'm'])).collect();
+      let mode = if rng.chance(1, 2) { mixed.as_str() } else if kind == "f64" { *rng.pick(&["var", "mut", "lit"]) } else { *rng.pick(&["var", "mut"]) };
       cases.push(format!("range\t{}\t{}\t{}\t{}\t{}\t{}", kind, form, fbits(kind, a), step, fbits(kind, b), mode));
       sink.hit(&format!("{}:{}:{}:{}", kind, form, if step == "-" { "nostep" } else { "step" }, mode));
     }
